@@ -340,6 +340,25 @@ func (x *fnCtx) startAtHeader(st *State, fr *Frame, h *ssa.BasicBlock, ord int) 
 			}
 		}
 	}
+	// every other binding may have fired any number of times before this header is reached
+	// (earlier code, earlier iterations): its value here is unknown, not "unbound"; what is
+	// known about it must be stated as a loop invariant
+	for _, td := range x.con.Traces {
+		if td.As == "" || x.bindOutsideLoops(td) {
+			continue
+		}
+		if _, done := st.ghost[td.As]; done {
+			continue
+		}
+		if t := x.bindType(td); t != nil {
+			v := freshVal(t, fmt.Sprintf("ghost.%s.%s@L%d", x.short, td.As, ord), true)
+			for _, f := range rangeFacts(v) {
+				st.assume(f)
+			}
+			st.ghost[td.As] = v
+			st.ghost["$bound."+td.As] = scalar(tBool, Sym(fmt.Sprintf("ghost.%s.%s@L%d#bound", x.short, td.As, ord), SBool))
+		}
+	}
 	// heap-independent conjuncts of the invariants of the enclosing loops still hold: they
 	// speak about values of the current outer iteration, which are immutable
 	for oi, ho := range x.hdrList {
